@@ -612,11 +612,24 @@ def cmd_bytes(a, kind, cell=None):
             elif got != want:
                 out.append(Problem('C09', what + ': wrong export', 'got=%r want=%r' % (got, want)))
 
+        def cmp_ne(want_le, want_be):
+            raw = res.named.get('tne')
+            if raw is None:
+                return
+            if raw == 'P':
+                out.append(Problem({'C09', 'C14'}, 'ToBytes::to_ne_bytes: panicked', ''))
+                return
+            got = parse_tok(raw[1:])
+            want = want_le if raw[0] == 'L' else want_be
+            if got != want:
+                out.append(Problem('C09', 'ToBytes::to_ne_bytes: wrong export', 'got=%r want=%r' % (got, want)))
+
         if kind == 'U':
             cmp('le', be[::-1], 'to_bytes_le')
             cmp('be', be, 'to_bytes_be')
             cmp('tle', be[::-1], 'ToBytes::to_le_bytes')
             cmp('tbe', be, 'ToBytes::to_be_bytes')
+            cmp_ne(be[::-1], be)
             cmp('w32', w32, 'to_u32_digits')
             cmp('w64', w64, 'to_u64_digits')
             cmp('i32', w32, 'iter_u32_digits().collect()')
@@ -631,6 +644,7 @@ def cmd_bytes(a, kind, cell=None):
             cmp('sbe', sb, 'to_signed_bytes_be')
             cmp('tle', sb[::-1], 'ToBytes::to_le_bytes')
             cmp('tbe', sb, 'ToBytes::to_be_bytes')
+            cmp_ne(sb[::-1], sb)
             cmp('w32', [sign, w32] if w32 else [sign, []], 'to_u32_digits')
             cmp('w64', [sign, w64] if w64 else [sign, []], 'to_u64_digits')
             cmp('i32', w32, 'iter_u32_digits().collect()')
@@ -653,6 +667,8 @@ def cmd_frombytes(b, kindsign, cell=None):
         if kind == 'U':
             out += chk_big('C09', res.get('tle'), le, 'FromBytes::from_le_bytes', kind)
             out += chk_big('C09', res.get('tbe'), be, 'FromBytes::from_be_bytes', kind)
+            if res.get('tne_is_le') not in (True, ('missing',)):
+                out.append(Problem('C09', 'FromBytes::from_ne_bytes differs from the native-endian import', repr(res.get('tne_is_le'))))
         return out
 
     return Cmd(line, check, cell=cell, prop='C09')
@@ -668,6 +684,8 @@ def cmd_fromsbytes(b, cell=None):
         out += chk_big('C09', res.get('sbe'), be, 'from_signed_bytes_be', 'I')
         out += chk_big('C09', res.get('tle'), le, 'FromBytes::from_le_bytes', 'I')
         out += chk_big('C09', res.get('tbe'), be, 'FromBytes::from_be_bytes', 'I')
+        if res.get('tne_is_le') not in (True, ('missing',)):
+            out.append(Problem('C09', 'FromBytes::from_ne_bytes differs from the native-endian signed import', repr(res.get('tne_is_le'))))
         return out
 
     return Cmd(line, check, cell=cell, prop='C09')
@@ -997,6 +1015,9 @@ def cmd_usigns(a, cell=None):
         out = chk_big(P, res.get('to_bigint'), a, 'BigUint::to_bigint', 'I')
         out += chk_big(P, res.get('t_to_biguint'), a, 'ToBigUint for BigUint', 'U')
         out += chk_big(P, res.get('from'), a, 'BigInt::from(BigUint)', 'I')
+        out += chk_big(P, res.get('to_bigint_s'), a, 'BigUint::to_bigint (stale capacity)', 'I')
+        out += chk_big(P, res.get('from_s'), a, 'BigInt::from(BigUint) (stale capacity)', 'I')
+        out += chk_big(P, res.get('to_bigint_h'), a, 'BigUint::to_bigint (value with a history)', 'I')
         out += chk_eq(P, res.get('is_zero'), a == 0, 'is_zero')
         out += chk_eq(P, res.get('is_one'), a == 1, 'is_one')
         out += chk_big(P, res.get('set_zero'), 0, 'set_zero', 'U')
